@@ -120,7 +120,8 @@ CHECKS = {
     "C08": dict(
         text="The real SqliteQueue / DLQ code executed symbolically over SymDB: deliver_at, locked_until, attempts, max_attempts, "
              "version and the clock instants are symbolic integers; two pollers (nested and sequential); ack / reschedule / extend / "
-             "move-to-DLQ / sweep / replay / push with a crash (rollback) at the operation's commit against a ghost ledger of identities.",
+             "move-to-DLQ / sweep / replay / push with the process dying at its n-th commit against a ghost ledger of identities; one message "
+             "through solver-chosen operation sequences with symbolic time steps against a reference queue model.",
         note="Bounds: <=2 queue rows + 1 DLQ row, 200 s time window at ms resolution, attempts <=12; queue max_attempts equals the row's "
              "(DESIGN O2); SymDB instead of SQLite (validated differentially).",
         design="3/C08",
